@@ -14,4 +14,5 @@ CONSTANTS
   Export = FALSE
 SPECIFICATION Spec
 INVARIANT FailIsIdempotent
+INVARIANT FailLeavesNoResidue
 CHECK_DEADLOCK FALSE
